@@ -24,10 +24,10 @@ def _polygon_area_3d(pts, normal):
     return 0.5 * abs(np.dot(u, np.roll(v, -1)) - np.dot(v, np.roll(u, -1)))
 
 
-def periodic_voronoi(pos, L):
+def periodic_voronoi(pos, L, bonds=True):
     """pos (N,d) anywhere, L (d,) box edge lengths (fully periodic).
     Returns (volumes[N], bonds) with bonds = list over i of list of (j, weight), one entry per Voronoi facet
-    of cell i (so repeated j and j == i are possible in small systems)."""
+    of cell i (so repeated j and j == i are possible in small systems); bonds=False skips the facets (None)."""
     pos = np.asarray(pos, dtype=float)
     L = np.asarray(L, dtype=float)
     N, d = pos.shape
@@ -41,6 +41,8 @@ def periodic_voronoi(pos, L):
         if -1 in reg or len(reg) == 0:
             raise ValueError("unbounded central cell: system too small for the 3^d image construction")
         volumes[i] = ConvexHull(vor.vertices[reg]).volume
+    if not bonds:
+        return volumes, None
     bonds = [[] for _ in range(N)]
     for (a, b), rv in zip(vor.ridge_points, vor.ridge_vertices):
         if a >= N and b >= N:
